@@ -171,10 +171,21 @@ def run_par(desc, c, e, add, rng):
     seed = c.strategy_seed
     kw_models = lambda: dict(e.kwargs(c.ctx))
     base = dict(X=c.X, y=c.y, candidates=c.candidates, batch_size=1, return_utilities=True)
+    # per-sample weights of the training data (when the strategy takes them): candidates that are samples of X keep their
+    # weights and labels inside the wrapper
+    import inspect
+    w_par = None
+    try:
+        if "sample_weight" in inspect.signature(type(e.make(seed)).query).parameters and (desc["seed"] >> 17) % 2:
+            w_par = np.round(gen.rng_for("c20w", desc["seed"]).rand(len(c.X)) * 3 + 0.2, 2)
+    except (TypeError, ValueError):
+        pass
 
     def call(qs):
         kw = dict(kw_models(), X=base["X"].copy(), y=base["y"].copy(), batch_size=1, return_utilities=True,
                   candidates=None if c.candidates is None else c.candidates.copy())
+        if w_par is not None:
+            kw["sample_weight"] = w_par.copy()
         steps.begin()
         try:
             return qs.query(**kw)
